@@ -477,6 +477,7 @@ type LoopSpec struct {
 	Hint       string
 	Invariants []*Clause
 	Iter       []*Clause // "iter ensures": per-iteration postconditions (old = loop head)
+	SelectOnly bool      // "blocks only in select": no receive statement outside the comm clauses of the loop's selects
 	Cancels    string    // "cancels ctx": the loop is a goroutine's message loop that must stop when ctx is cancelled
 	Exit       []*Clause // "exit ensures": holds on every way out of the loop other than return (exhaustion, break)
 	Decreases  *Clause
@@ -572,7 +573,7 @@ type SpecFile struct {
 
 var clauseKeywords = map[string]bool{
 	"requires": true, "ensures": true, "modifies": true, "invariant": true, "loop": true,
-	"iter": true, "exit": true, "cancels": true, "closureinv": true, "decreases": true, "emits": true, "recvinv": true, "flag": true, "use": true, "prop": true, "induction": true, "pattern": true,
+	"iter": true, "exit": true, "cancels": true, "blocks": true, "closureinv": true, "decreases": true, "emits": true, "recvinv": true, "flag": true, "use": true, "prop": true, "induction": true, "pattern": true,
 	"field": true, "assumed": true, "pure": true, "end": true,
 }
 var headerKeywords = map[string]bool{"func": true, "type": true, "spec": true, "lemma": true, "ghost": true, "axiom": true, "package": true}
@@ -795,6 +796,11 @@ func parseSpecText(path, pkgPath string, lines []string, lineNos []int) (*SpecFi
 				return nil, err
 			}
 			curLoop.Iter = append(curLoop.Iter, c)
+		case "blocks":
+			if curLoop == nil {
+				return nil, fmt.Errorf("%s:%d: blocks outside loop", path, it.line)
+			}
+			curLoop.SelectOnly = true
 		case "cancels":
 			if curLoop == nil {
 				return nil, fmt.Errorf("%s:%d: cancels outside loop", path, it.line)
